@@ -35,9 +35,9 @@ Record cop := mkOp {
 #[global] Instance eta_cop : Settable _ :=
   settable! mkOp <o_mid; o_kind; o_deadline; o_status; o_reply; o_items; o_taken; o_chan; o_rx; o_got; o_res; o_tmo; o_call>.
 
-Record fixes := mkFx { fix5 : bool; fix7 : bool; fix8 : bool; fix9 : bool; fix15 : bool; fix16 : bool; fix20 : bool }.
-Definition as_is := mkFx false false false false false false false.
-Definition repaired := mkFx true true true true true true true.
+Record fixes := mkFx { fix5 : bool; fix7 : bool; fix8 : bool; fix9 : bool; fix15 : bool; fix16 : bool; fix20 : bool; fix25 : bool }.
+Definition as_is := mkFx false false false false false false false false.
+Definition repaired := mkFx true true true true true true true true.
 
 Inductive dstatus := Running | EndedOk | EndedErr | EndedPanic.
 Record st := mkSt {
@@ -46,11 +46,12 @@ Record st := mkSt {
   rmap : list (Z * nat); smap : list (Z * nat);
   opq : list nat; scrubq : list Z; win : list resp; wout : list (Z * kind);
   ops : list cop; drv : dstatus; now : Z;
-  sent : list resp; processed : list (resp * option nat) }.
+  sent : list resp; processed : list (resp * option nat);
+  sids : list (nat * Z) }.   (* stream -> what its handle's last_id says after an operation was issued through SearchStream::ldap_handle() *)
 #[global] Instance eta_st : Settable _ :=
-  settable! mkSt <fx; last; inuse; rmap; smap; opq; scrubq; win; wout; ops; drv; now; sent; processed>.
+  settable! mkSt <fx; last; inuse; rmap; smap; opq; scrubq; win; wout; ops; drv; now; sent; processed; sids>.
 
-Definition init (f : fixes) : st := mkSt f 0 [] [] [] [] [] [] [] [] Running 0 [] [].
+Definition init (f : fixes) : st := mkSt f 0 [] [] [] [] [] [] [] [] Running 0 [] [] [].
 
 (* ---- small map / list helpers ---- *)
 Definition rem (x : Z) (l : list Z) : list Z := filter (fun y => negb (Z.eqb x y)) l.
@@ -88,6 +89,9 @@ Inductive ev :=
 | CliPoll (o : nat)
 | StreamNext (o : nat) | StreamFinish (o : nat)
 | Advance (dt : Z)
+| ViaHandle (o : nat)                     (* an operation has just been issued through the handle of stream o (ldap_handle()): that handle's
+                                            last_id - which the stream consulted when it asked for a scrub, before repair F25 - is now the id
+                                            allocated last *)
 | Alloc (k : kind) (timeout : option Z)   (* the first half of Start: id allocation only *)
 | Enqueue (o : nat).                       (* the second half: self.tx.send(..) of an allocated operation; the op timer starts here *)
 
@@ -113,8 +117,13 @@ Definition enqueue (o : nat) (s : st) : st :=
         else updop o (fun c => c <| o_status := start_err (o_kind c) EOpSend |> <| o_deadline := option_map (Z.add (now s)) (o_tmo c) |>) s
     | _ => s end end.
 
+(* the id a stream names when it asks the driver to scrub: its own (repair F25: it remembers it), or whatever its handle says *)
+Definition scrub_id (s : st) (o : nat) (c : cop) : Z :=
+  if fix25 (fx s) then o_mid c else match find (fun p => Nat.eqb (fst p) o) (sids s) with Some p => snd p | None => o_mid c end.
+
 Definition step (s : st) (e : ev) : st :=
   match e with
+  | ViaHandle o => s <| sids ::= cons (o, last s) |>
   | Alloc k tmo => alloc k tmo s
   | Enqueue o => enqueue o s
   | Start k tmo =>
@@ -230,7 +239,7 @@ Definition step (s : st) (e : ev) : st :=
                  | Some d => if t0 + d <=? now s then
                                (* Err(Timeout): next() sets the state to Error; the receiver is kept until finish() or drop *)
                                let s1 := updop o (fun c => c <| o_status := SError |> <| o_call := None |>) s in
-                               if is_running s then s1 <| scrubq ::= fun q => q ++ [o_mid c] |> else s1
+                               if is_running s then s1 <| scrubq ::= fun q => q ++ [scrub_id s o c] |> else s1
                              else updop o (fun c => c <| o_call := Some t0 |>) s
                  | None => updop o (fun c => c <| o_call := Some t0 |>) s end
         end
@@ -244,8 +253,8 @@ Definition step (s : st) (e : ev) : st :=
              Error state that has been done already (timeout) or the id is gone (closed channel) *)
           match o_status c with
           | SDone => s1
-          | SError => if fix20 (fx s) then s1 else if is_running s then s1 <| scrubq ::= fun q => q ++ [o_mid c] |> else s1
-          | _ => if is_running s then s1 <| scrubq ::= fun q => q ++ [o_mid c] |> else s1 end
+          | SError => if fix20 (fx s) then s1 else if is_running s then s1 <| scrubq ::= fun q => q ++ [scrub_id s o c] |> else s1
+          | _ => if is_running s then s1 <| scrubq ::= fun q => q ++ [scrub_id s o c] |> else s1 end
       | _ => s end end
   | Advance dt => s <| now ::= Z.add (Z.max 0 dt) |>
   end.
@@ -259,8 +268,8 @@ Lemma nth_error_last {A} (l : list A) (x : A) : nth_error (l ++ [x]) (length l) 
 Proof. induction l as [|a l IH]; cbn; [reflexivity|exact IH]. Qed.
 Lemma st_eq (a b : st) : fx a = fx b -> last a = last b -> inuse a = inuse b -> rmap a = rmap b -> smap a = smap b -> opq a = opq b ->
   scrubq a = scrubq b -> win a = win b -> wout a = wout b -> ops a = ops b -> drv a = drv b -> now a = now b -> sent a = sent b ->
-  processed a = processed b -> a = b.
-Proof. destruct a, b. cbn [fx last inuse rmap smap opq scrubq win wout ops drv now sent processed]. intros. subst. reflexivity. Qed.
+  processed a = processed b -> sids a = sids b -> a = b.
+Proof. destruct a, b. cbn [fx last inuse rmap smap opq scrubq win wout ops drv now sent processed sids]. intros. subst. reflexivity. Qed.
 Lemma start_split s k tmo : step s (Start k tmo) = step (step s (Alloc k tmo)) (Enqueue (length (ops s))).
 Proof.
   cbn [step]. unfold alloc. destruct (next_msgid (last s) (inuse s)) as [mid| |].
@@ -299,6 +308,15 @@ Proof. vm_compute. repeat split. Qed.
 (* F22 (known finding, the wrap-around regime): the driver releases a search's id when it routes the SearchResultDone (repair F8); a caller
    that has not read that far and calls finish() sends a scrub for that id all the same; if the id has been re-issued in between - the counter
    has come round: modelled by stepping [last] back - the stale scrub takes the reply sender of the operation that owns the id now *)
+(* F25: an operation issued through a stream's own handle; the stream, finished early, then has the driver scrub that operation's id and
+   keeps its own - with every other repair in *)
+Definition all_but_25 := mkFx true true true true true true true false.
+Definition h25 := [Start (KSearch false) None; DrvOp; CliPoll 0; Start KSingle None; ViaHandle 0; DrvOp; ServerSend (mkResp 2 ROther 5); DrvResp; CliPoll 1; StreamFinish 0; DrvScrub].
+Lemma c13_refuted_F25 : c13 (run all_but_25 h25) = false /\ inuse (run all_but_25 h25) = [1] /\ map fst (smap (run all_but_25 h25)) = [1].
+Proof. vm_compute. repeat split. Qed.
+Lemma c13_repaired_F25 : c13 (run repaired h25) = true /\ inuse (run repaired h25) = [] /\ smap (run repaired h25) = [].
+Proof. vm_compute. repeat split. Qed.
+
 Lemma c12_refuted_F22 :
   let s0 := run repaired [Start (KSearch false) None; DrvOp; CliPoll 0; ServerSend (mkResp 1 RDone 1); DrvResp] in
   let s1 := s0 <| last := 0 |> in
